@@ -101,7 +101,7 @@ class C03(core.Check):
                 else:       # malformed: a character that is not a digit of the base
                     d = [rng.choice([48, 55, 56, 57, 65, 70, 71, 90, 47, 58, 64]) for _ in range(rng.randrange(1, 5))]
                 add({'op': op, 'd': d})
-            elif r < 0.95 or self.tier == 'thorough':
+            elif r < 0.95 and self.tier != 'thorough':
                 add({'op': 'sweep', 'lo': rng.randrange(-32768, 32768 - SWEEP + 1)})
             else:
                 add({'op': rng.choice(['cint', 'fix', 'int']), 'v': M.rand_value(rng, (4, 8))})
